@@ -231,11 +231,36 @@ func genCases(o *lib.Opts) {
 			return "beyond"
 		}())
 	}
+	genLarge(o, r)
 }
 
 func replay(lines [][]string) {
 	for _, f := range lines {
 		emit(f...)
+	}
+}
+
+// genLarge: windows with a large spare capacity (a short field cut out of a big pooled buffer) and large
+// strings: sharing and cap = len must not depend on how big the backing object is
+// (seeded change C20_w6_1: BinaryToString copied when cap-len exceeded 64 KiB)
+func genLarge(o *lib.Opts, r *lib.Rng) {
+	spares := []int{65535, 65536, 65537, 131072}
+	if o.Tier == "thorough" {
+		spares = append(spares, 1<<20, 1<<20+1)
+	}
+	for _, sp := range spares {
+		for _, ln := range []int{1, 5, 4096} {
+			off := r.Pick(0, 3)
+			obj := r.Bytes(off + ln + sp)
+			hx := lib.Hex(obj)
+			emit("usx", "b2s", hx, itoa(off), itoa(ln), itoa(ln+sp))
+			classify("b2s", len(obj), off, ln, ln+sp)
+			em.Count("b2s:large-spare-cap")
+		}
+		big := r.Bytes(sp + 7)
+		emit("usx", "s2b", lib.Hex(big), "3", itoa(sp), "e1e2")
+		emit("usx", "s2b", lib.Hex(big), "0", "1", "e1e2")
+		em.Count("s2b:large-string")
 	}
 }
 
